@@ -1,1 +1,921 @@
-//! (module owned by one property family; see AGENT_GUIDE.md)
+//! Observable dump of an `EmmyLuaAnalysis` (DESIGN.md §3, shared oracle of C08–C11 and C38).
+//!
+//! `observe(&EmmyLuaAnalysis) -> serde_json::Value` is a *pure, read-only* function of the
+//! analysis: it builds its own `SemanticModel`s and its own `LuaDiagnostic` (all codes
+//! enabled, otherwise the analysis' configuration), holds no global state and can be called
+//! from several threads at once. Everything is keyed by *path* and positions, never by
+//! `FileId` (ids differ between two analyses of the same files).
+//!
+//! Layout of the dump:
+//! ```text
+//! { "files":   { <path>: observe_file(..) },
+//!   "globals": { <name>: [ "<path>@<range> : <type> | doc" … sorted ] },
+//!   "types":   { <full name>: { kind, flags, locations[sorted], supers[sorted], generics,
+//!                               alias, doc, members[sorted "key: type @loc | doc"] } },
+//!   "gmembers":{ <global path>: [ members … sorted ] },
+//!   "modules": { "files": {<path>: {name, workspace, visibility, meta, export}},
+//!                "find":  {<module string>: <path>|null} } }
+//! ```
+//! `observe_file` = `{ "diag": [...sorted], "tokens": [...in text order], "decls": [...] }`.
+//!
+//! Index-level sections (globals/types/members/modules) are rendered as *sets* (sorted); the
+//! order in which the analysis happens to hold them is only visible through its effect on
+//! query results (token types, diagnostics). Member listings inside rendered types are sorted
+//! (C11 compares "modulo the listing order of members in rendered types").
+
+use emmylua_code_analysis::{
+    DbIndex, DiagnosticCode, EmmyLuaAnalysis, Emmyrc, FileId, LuaCommonProperty, LuaDiagnostic, LuaMember, LuaMemberOwner, LuaSemanticDeclId, LuaType,
+    LuaTypeCache, LuaTypeDecl, LuaTypeIdentifier, RenderLevel, SemanticModel, humanize_type,
+};
+use emmylua_parser::{LuaSyntaxNode, LuaTokenKind};
+use rowan::{NodeOrToken, TextRange};
+use serde_json::{Map, Value, json};
+use std::collections::{BTreeMap, BTreeSet};
+use std::sync::Arc;
+use tokio_util::sync::CancellationToken;
+
+// ───────────────────────── small helpers ─────────────────────────
+
+fn rng_s(r: TextRange) -> String {
+    format!("{}..{}", u32::from(r.start()), u32::from(r.end()))
+}
+
+/// Path of a file id ("<gone:…>" never contains the numeric id: a dangling id renders as a
+/// constant so that it is visible but comparable).
+pub fn path_of(db: &DbIndex, fid: FileId) -> String {
+    match db.get_vfs().get_file_path(&fid) {
+        Some(p) => p.to_string_lossy().to_string(),
+        None => "<no-path>".to_string(),
+    }
+}
+
+fn loc(db: &DbIndex, fid: FileId, r: TextRange) -> String {
+    format!("{}@{}", path_of(db, fid), rng_s(r))
+}
+
+/// Sorts the items of every `{ … }` listing inside a rendered type (and leaves everything
+/// else untouched). Falls back to the input when brackets do not balance.
+pub fn canon_type(s: &str) -> String {
+    if !s.contains('{') {
+        return s.to_string();
+    }
+    let chars: Vec<char> = s.chars().collect();
+    let mut pos = 0usize;
+    match canon_seq(&chars, &mut pos, None) {
+        Some(out) if pos == chars.len() => out,
+        _ => s.to_string(),
+    }
+}
+
+/// Parses up to (not including) `close` at nesting level 0; returns the canonical text.
+fn canon_seq(c: &[char], pos: &mut usize, close: Option<char>) -> Option<String> {
+    let mut out = String::new();
+    while *pos < c.len() {
+        let ch = c[*pos];
+        if Some(ch) == close {
+            return Some(out);
+        }
+        match ch {
+            '"' | '\'' => {
+                out.push(ch);
+                *pos += 1;
+                while *pos < c.len() && c[*pos] != ch {
+                    if c[*pos] == '\\' && *pos + 1 < c.len() {
+                        out.push(c[*pos]);
+                        *pos += 1;
+                    }
+                    out.push(c[*pos]);
+                    *pos += 1;
+                }
+                if *pos < c.len() {
+                    out.push(ch);
+                    *pos += 1;
+                }
+            }
+            '{' => {
+                *pos += 1;
+                let items = canon_items(c, pos)?;
+                if *pos >= c.len() || c[*pos] != '}' {
+                    return None;
+                }
+                *pos += 1;
+                out.push_str("{ ");
+                out.push_str(&items.join(", "));
+                out.push_str(" }");
+            }
+            '(' | '[' => {
+                let cl = if ch == '(' { ')' } else { ']' };
+                out.push(ch);
+                *pos += 1;
+                let inner = canon_seq(c, pos, Some(cl))?;
+                if *pos >= c.len() {
+                    return None;
+                }
+                out.push_str(&inner);
+                out.push(cl);
+                *pos += 1;
+            }
+            '}' | ')' | ']' => return None,
+            _ => {
+                out.push(ch);
+                *pos += 1;
+            }
+        }
+    }
+    if close.is_some() { None } else { Some(out) }
+}
+
+/// Items of a `{}` listing (split at top-level commas; `<…>` argument lists are kept whole).
+fn canon_items(c: &[char], pos: &mut usize) -> Option<Vec<String>> {
+    let mut items = Vec::new();
+    let mut cur = String::new();
+    let mut angle = 0i32;
+    while *pos < c.len() {
+        let ch = c[*pos];
+        match ch {
+            '}' => break,
+            ',' if angle == 0 => {
+                items.push(std::mem::take(&mut cur));
+                *pos += 1;
+            }
+            '<' => {
+                angle += 1;
+                cur.push(ch);
+                *pos += 1;
+            }
+            '>' => {
+                if angle > 0 {
+                    angle -= 1;
+                }
+                cur.push(ch);
+                *pos += 1;
+            }
+            '{' | '(' | '[' | '"' | '\'' => {
+                // delegate one balanced group to canon_seq by parsing exactly one element
+                let start = *pos;
+                let mut sub = String::new();
+                let one = canon_one(c, pos, &mut sub)?;
+                if !one || *pos == start {
+                    return None;
+                }
+                cur.push_str(&sub);
+            }
+            _ => {
+                cur.push(ch);
+                *pos += 1;
+            }
+        }
+    }
+    items.push(cur);
+    let mut v: Vec<String> = items.into_iter().map(|s| s.split_whitespace().collect::<Vec<_>>().join(" ")).filter(|s| !s.is_empty()).collect();
+    v.sort();
+    Some(v)
+}
+
+fn canon_one(c: &[char], pos: &mut usize, out: &mut String) -> Option<bool> {
+    let ch = c[*pos];
+    match ch {
+        '{' => {
+            *pos += 1;
+            let items = canon_items(c, pos)?;
+            if *pos >= c.len() || c[*pos] != '}' {
+                return None;
+            }
+            *pos += 1;
+            out.push_str("{ ");
+            out.push_str(&items.join(", "));
+            out.push_str(" }");
+            Some(true)
+        }
+        '(' | '[' => {
+            let cl = if ch == '(' { ')' } else { ']' };
+            out.push(ch);
+            *pos += 1;
+            let inner = canon_seq(c, pos, Some(cl))?;
+            if *pos >= c.len() {
+                return None;
+            }
+            out.push_str(&inner);
+            out.push(cl);
+            *pos += 1;
+            Some(true)
+        }
+        '"' | '\'' => {
+            out.push(ch);
+            *pos += 1;
+            while *pos < c.len() && c[*pos] != ch {
+                if c[*pos] == '\\' && *pos + 1 < c.len() {
+                    out.push(c[*pos]);
+                    *pos += 1;
+                }
+                out.push(c[*pos]);
+                *pos += 1;
+            }
+            if *pos < c.len() {
+                out.push(ch);
+                *pos += 1;
+            }
+            Some(true)
+        }
+        _ => Some(false),
+    }
+}
+
+pub fn render_type(db: &DbIndex, t: &LuaType) -> String {
+    canon_type(&humanize_type(db, t, RenderLevel::Detailed))
+}
+
+fn render_cache(db: &DbIndex, c: Option<&LuaTypeCache>) -> String {
+    match c {
+        None => "<none>".into(),
+        Some(LuaTypeCache::DocType(t)) => format!("doc:{}", render_type(db, t)),
+        Some(LuaTypeCache::InferType(t)) => format!("infer:{}", render_type(db, t)),
+    }
+}
+
+fn render_prop(p: Option<&LuaCommonProperty>) -> String {
+    let Some(p) = p else { return String::new() };
+    let mut s = String::new();
+    if let Some(d) = p.description() {
+        // an empty description is shown exactly like no description
+        if !d.trim().is_empty() {
+            s.push_str(&format!("desc={d:?}"));
+        }
+    }
+    if let Some(d) = p.deprecated() {
+        s.push_str(&format!(" deprecated={d:?}"));
+    }
+    let vis = format!("{:?}", p.visibility);
+    if vis != "Public" {
+        s.push_str(&format!(" vis={vis}"));
+    }
+    if let Some(t) = p.tag_content() {
+        s.push_str(&format!(" tags={:?}", t.get_all_tags()));
+    }
+    if let Some(src) = p.source() {
+        s.push_str(&format!(" source={src:?}"));
+    }
+    if let Some(v) = p.version_conds() {
+        s.push_str(&format!(" version={v:?}"));
+    }
+    if let Some(a) = p.attribute_uses() {
+        s.push_str(&format!(" attrs={}", a.len()));
+    }
+    s
+}
+
+fn type_name(db: &DbIndex, d: &LuaTypeDecl) -> String {
+    let id = d.get_id();
+    match id.get_id() {
+        LuaTypeIdentifier::Global(n) => n.to_string(),
+        LuaTypeIdentifier::Internal(ws, n) => format!("{n}#internal({ws})"),
+        LuaTypeIdentifier::File(f, n) => format!("{n}#file({})", path_of(db, *f)),
+    }
+}
+
+pub fn render_decl(db: &DbIndex, d: &LuaSemanticDeclId) -> String {
+    match d {
+        LuaSemanticDeclId::LuaDecl(id) => match db.get_decl_index().get_decl(id) {
+            Some(decl) => format!("decl:{}:{}", decl.get_name(), loc(db, id.file_id, decl.get_range())),
+            None => format!("decl:<dangling>:{}@{}", path_of(db, id.file_id), u32::from(id.position)),
+        },
+        LuaSemanticDeclId::Member(id) => match db.get_member_index().get_member(id) {
+            Some(m) => format!("member:{}:{}", m.get_key().to_path(), loc(db, id.file_id, m.get_range())),
+            None => format!("member:<dangling>:{}", loc(db, id.file_id, id.get_syntax_id().get_range())),
+        },
+        LuaSemanticDeclId::TypeDecl(id) => match db.get_type_index().get_type_decl(id) {
+            Some(t) => format!("type:{}", type_name(db, t)),
+            None => format!("type:<dangling>:{}", id.get_name()),
+        },
+        LuaSemanticDeclId::Signature(id) => format!("sig:{}@{}", path_of(db, id.get_file_id()), u32::from(id.get_position())),
+    }
+}
+
+fn render_member(db: &DbIndex, m: &LuaMember) -> String {
+    let id = m.get_id();
+    let ty = render_cache(db, db.get_type_index().get_type_cache(&id.into()));
+    let prop = render_prop(db.get_property_index().get_property(&LuaSemanticDeclId::Member(id)));
+    format!("{}: {} @{} |{}", m.get_key().to_path(), ty, loc(db, m.get_file_id(), m.get_range()), prop)
+}
+
+fn members_of(db: &DbIndex, owner: &LuaMemberOwner) -> Vec<String> {
+    let mut v: Vec<String> = db.get_member_index().get_members(owner).unwrap_or_default().into_iter().map(|m| render_member(db, m)).collect();
+    v.sort();
+    v
+}
+
+/// The analysis' own configuration with every diagnostic code enabled.
+fn all_codes_config(a: &EmmyLuaAnalysis) -> Arc<Emmyrc> {
+    let mut rc: Emmyrc = (*a.emmyrc).clone();
+    rc.diagnostics.enable = true;
+    rc.diagnostics.disable.clear();
+    rc.diagnostics.enables = DiagnosticCode::all();
+    Arc::new(rc)
+}
+
+fn all_codes_diagnostic(a: &EmmyLuaAnalysis) -> LuaDiagnostic {
+    let mut d = LuaDiagnostic::new();
+    d.update_config(all_codes_config(a));
+    d
+}
+
+// ───────────────────────── per file ─────────────────────────
+
+/// Dump of one file: diagnostics (all codes enabled), per-token semantic info, declarations
+/// with their references and documentation.
+pub fn observe_file(a: &EmmyLuaAnalysis, fid: FileId) -> Value {
+    let diag = all_codes_diagnostic(a);
+    observe_file_with(a, fid, &diag)
+}
+
+fn observe_file_with(a: &EmmyLuaAnalysis, fid: FileId, diag: &LuaDiagnostic) -> Value {
+    let db = a.compilation.get_db();
+    let mut out = Map::new();
+
+    // diagnostics
+    let mut ds: Vec<String> = Vec::new();
+    match diag.diagnose_file(&a.compilation, fid, CancellationToken::new()) {
+        Some(list) => {
+            for d in list {
+                let code = match &d.code {
+                    Some(lsp_types::NumberOrString::String(s)) => s.clone(),
+                    Some(lsp_types::NumberOrString::Number(n)) => n.to_string(),
+                    None => "-".into(),
+                };
+                let mut rel = String::new();
+                if let Some(ri) = &d.related_information {
+                    for r in ri {
+                        rel.push_str(&format!(" rel={}@{}:{}-{}:{} {:?}", r.location.uri.as_str(), r.location.range.start.line, r.location.range.start.character, r.location.range.end.line, r.location.range.end.character, r.message));
+                    }
+                }
+                let data = d.data.as_ref().map(|v| format!(" data={v}")).unwrap_or_default();
+                ds.push(format!(
+                    "{}:{}-{}:{} {} sev={:?} tags={:?} {:?}{}{}",
+                    d.range.start.line,
+                    d.range.start.character,
+                    d.range.end.line,
+                    d.range.end.character,
+                    code,
+                    d.severity,
+                    d.tags,
+                    canon_type(&d.message),
+                    rel,
+                    data
+                ));
+            }
+            ds.sort();
+            out.insert("diag".into(), json!(ds));
+        }
+        None => {
+            out.insert("diag".into(), Value::Null);
+        }
+    }
+
+    // tokens
+    let mut tokens: Vec<Value> = Vec::new();
+    if let Some(sm) = a.compilation.get_semantic_model(fid) {
+        tokens = observe_tokens(db, &sm);
+    }
+    out.insert("tokens".into(), Value::Array(tokens));
+
+    // declarations, their references and documentation
+    let mut decls: Vec<String> = Vec::new();
+    if let Some(tree) = db.get_decl_index().get_decl_tree(&fid) {
+        for (id, decl) in tree.get_decls() {
+            let ty = render_cache(db, db.get_type_index().get_type_cache(&(*id).into()));
+            let prop = render_prop(db.get_property_index().get_property(&LuaSemanticDeclId::LuaDecl(*id)));
+            let mut refs: Vec<String> = Vec::new();
+            if let Some(r) = db.get_reference_index().get_decl_references(&fid, id) {
+                for c in &r.cells {
+                    refs.push(format!("{}{}", rng_s(c.range), if c.is_write { "w" } else { "" }));
+                }
+            }
+            if decl.is_global() {
+                if let Some(gr) = db.get_reference_index().get_global_references(decl.get_name()) {
+                    for r in gr {
+                        refs.push(format!("g:{}", loc(db, r.file_id, r.value.get_range())));
+                    }
+                }
+            }
+            refs.sort();
+            let kind = if decl.is_global() {
+                "global"
+            } else if decl.is_param() {
+                "param"
+            } else if decl.is_implicit_self() {
+                "self"
+            } else {
+                "local"
+            };
+            decls.push(format!("{}@{} {} {}: {} |{} refs={:?}", u32::from(decl.get_position()), rng_s(decl.get_range()), kind, decl.get_name(), ty, prop, refs));
+        }
+    }
+    decls.sort();
+    out.insert("decls".into(), json!(decls));
+    Value::Object(out)
+}
+
+fn observe_tokens(db: &DbIndex, sm: &SemanticModel) -> Vec<Value> {
+    let root: LuaSyntaxNode = {
+        use emmylua_parser::LuaAstNode;
+        sm.get_root().syntax().clone()
+    };
+    let mut out = Vec::new();
+    for el in root.descendants_with_tokens() {
+        let NodeOrToken::Token(t) = el else { continue };
+        let kind: LuaTokenKind = t.kind().into();
+        if !matches!(kind, LuaTokenKind::TkName | LuaTokenKind::TkString) {
+            continue;
+        }
+        let r = t.text_range();
+        let info = sm.get_semantic_info(NodeOrToken::Token(t.clone()));
+        let (ty, decl) = match &info {
+            Some(i) => (render_type(db, &i.typ), i.semantic_decl.as_ref().map(|d| render_decl(db, d))),
+            None => ("<none>".to_string(), None),
+        };
+        out.push(json!([rng_s(r), t.text(), ty, decl]));
+    }
+    out
+}
+
+// ───────────────────────── whole analysis ─────────────────────────
+
+/// All live file ids in id (= registration) order.
+pub fn file_ids(a: &EmmyLuaAnalysis) -> Vec<FileId> {
+    a.compilation.get_db().get_vfs().get_all_file_ids()
+}
+
+pub fn observe(a: &EmmyLuaAnalysis) -> Value {
+    let db = a.compilation.get_db();
+    let diag = all_codes_diagnostic(a);
+    let ids = file_ids(a);
+
+    let mut files = Map::new();
+    let mut strings: BTreeSet<String> = BTreeSet::new();
+    for fid in &ids {
+        let Some(p) = db.get_vfs().get_file_path(fid) else { continue };
+        let v = observe_file_with(a, *fid, &diag);
+        // candidate module strings: every short string literal of the workspace
+        if let Some(toks) = v.get("tokens").and_then(|t| t.as_array()) {
+            for t in toks {
+                if let Some(txt) = t.get(1).and_then(|x| x.as_str()) {
+                    if txt.len() >= 3 && txt.len() <= 60 && (txt.starts_with('"') || txt.starts_with('\'')) {
+                        let inner = &txt[1..txt.len() - 1];
+                        if !inner.is_empty() && inner.chars().all(|c| c.is_ascii_alphanumeric() || "._/-".contains(c)) {
+                            strings.insert(inner.to_string());
+                        }
+                    }
+                }
+            }
+        }
+        files.insert(p.to_string_lossy().to_string(), v);
+    }
+
+    // globals
+    let mut globals: BTreeMap<String, Vec<String>> = BTreeMap::new();
+    for id in db.get_global_index().get_all_global_decl_ids() {
+        let (name, r) = match db.get_decl_index().get_decl(&id) {
+            Some(d) => (d.get_name().to_string(), rng_s(d.get_range())),
+            None => ("<dangling>".to_string(), format!("{}", u32::from(id.position))),
+        };
+        let ty = render_cache(db, db.get_type_index().get_type_cache(&id.into()));
+        let prop = render_prop(db.get_property_index().get_property(&LuaSemanticDeclId::LuaDecl(id)));
+        globals.entry(name).or_default().push(format!("{}@{} : {} |{}", path_of(db, id.file_id), r, ty, prop));
+    }
+    for v in globals.values_mut() {
+        v.sort();
+    }
+
+    // types
+    let mut types = Map::new();
+    let mut gpaths: BTreeSet<String> = BTreeSet::new();
+    for d in db.get_type_index().get_all_types() {
+        let id = d.get_id();
+        let mut locs: Vec<String> = d.get_locations().iter().map(|l| format!("{} flags={:?}", loc(db, l.file_id, l.range), l.flag)).collect();
+        locs.sort();
+        let mut supers: Vec<String> = db.get_type_index().get_super_types_raw(&id).unwrap_or_default().iter().map(|t| render_type(db, t)).collect();
+        supers.sort();
+        let generics: Vec<String> = db
+            .get_type_index()
+            .get_generic_params(&id)
+            .map(|g| g.iter().map(|p| format!("{}{}", p.name, p.constraint.as_ref().map(|c| format!(" extends {}", render_type(db, c))).unwrap_or_default())).collect())
+            .unwrap_or_default();
+        let kind = if d.is_class() {
+            "class"
+        } else if d.is_enum() {
+            "enum"
+        } else {
+            "alias"
+        };
+        let alias = d.get_alias_ref().map(|t| render_type(db, t));
+        let doc = render_prop(db.get_property_index().get_property(&LuaSemanticDeclId::TypeDecl(id.clone())));
+        let members = members_of(db, &LuaMemberOwner::Type(id.clone()));
+        types.insert(
+            type_name(db, d),
+            json!({"kind": kind, "locations": locs, "supers": supers, "generics": generics, "alias": alias, "doc": doc, "members": members}),
+        );
+    }
+
+    // members of global tables (owner = global path): every global name and one level below
+    let mut gmembers = Map::new();
+    for name in globals.keys() {
+        gpaths.insert(name.clone());
+    }
+    let mut frontier: Vec<String> = gpaths.iter().cloned().collect();
+    for _ in 0..2 {
+        let mut next = Vec::new();
+        for p in &frontier {
+            let owner = LuaMemberOwner::GlobalPath(emmylua_code_analysis::GlobalId::new(p));
+            let Some(ms) = db.get_member_index().get_members(&owner) else { continue };
+            let mut v = Vec::new();
+            for m in ms {
+                v.push(render_member(db, m));
+                if let Some(n) = m.get_key().get_name() {
+                    next.push(format!("{p}.{n}"));
+                }
+            }
+            v.sort();
+            gmembers.insert(p.clone(), json!(v));
+        }
+        next.sort();
+        next.dedup();
+        frontier = next;
+    }
+
+    // modules
+    let mut mfiles = Map::new();
+    for fid in &ids {
+        let Some(p) = db.get_vfs().get_file_path(fid) else { continue };
+        let v = match db.get_module_index().get_module(*fid) {
+            Some(m) => {
+                strings.insert(m.full_module_name.clone());
+                strings.insert(m.name.clone());
+                json!({
+                    "name": m.full_module_name,
+                    "workspace": format!("{}", m.workspace_id),
+                    "visible": format!("{:?}", m.visible),
+                    "meta": m.is_meta,
+                    "export": m.export_type.as_ref().map(|t| render_type(db, t)),
+                    "semantic": m.semantic_id.as_ref().map(|d| render_decl(db, d)),
+                    "version": m.version_conds.as_ref().map(|v| format!("{v:?}")),
+                })
+            }
+            None => Value::Null,
+        };
+        mfiles.insert(p.to_string_lossy().to_string(), v);
+    }
+    let mut find = Map::new();
+    for s in &strings {
+        let r = db.get_module_index().find_module(s).map(|m| path_of(db, m.file_id));
+        find.insert(s.clone(), json!(r));
+    }
+    // module infos that exist for files the vfs no longer has (must not happen)
+    let mut orphan: Vec<String> = Vec::new();
+    for m in db.get_module_index().get_module_infos() {
+        if db.get_vfs().get_file_content(&m.file_id).is_none() {
+            orphan.push(m.full_module_name.clone());
+        }
+    }
+    orphan.sort();
+
+    json!({
+        "files": files,
+        "globals": globals,
+        "types": types,
+        "gmembers": gmembers,
+        "modules": {"files": mfiles, "find": find, "orphan": orphan},
+    })
+}
+
+/// Per-index structural sizes (hook H1, `DbIndex::verif_census`).
+pub fn census(a: &EmmyLuaAnalysis) -> BTreeMap<String, usize> {
+    a.compilation.get_db().verif_census().into_iter().map(|(k, v)| (k.to_string(), v)).collect()
+}
+
+/// FNV-1a of the canonical JSON text (keys sorted).
+pub fn dump_hash(v: &Value) -> u64 {
+    crate::rng::fnv(canon_string(v).as_bytes())
+}
+
+// ───────────────────────── diffing ─────────────────────────
+
+#[derive(Clone, Debug)]
+pub struct Diff {
+    /// structural section, e.g. `files.tokens.type`, `types.doc`, `globals`, `modules.find`
+    pub section: String,
+    /// full JSON path of the differing leaf (contains names/paths: for details, not signatures)
+    pub path: String,
+    /// the same path as components
+    pub comps: Vec<String>,
+    pub left: String,
+    pub right: String,
+}
+
+/// Structural diff of two dumps: one entry per differing leaf (capped).
+pub fn diff(a: &Value, b: &Value) -> Vec<Diff> {
+    let mut out = Vec::new();
+    diff_rec(a, b, &mut Vec::new(), &mut out);
+    out
+}
+
+fn section_of(path: &[String]) -> String {
+    // drop map keys that are names/paths: keep the schema part only
+    match path.first().map(|s| s.as_str()) {
+        Some("files") => {
+            let sec = path.get(2).map(|s| s.as_str()).unwrap_or("file");
+            if sec == "tokens" {
+                match path.get(4).map(|s| s.as_str()) {
+                    Some("2") => "files.tokens.type".into(),
+                    Some("3") => "files.tokens.decl".into(),
+                    Some(_) => "files.tokens.text".into(),
+                    None => "files.tokens".into(),
+                }
+            } else {
+                format!("files.{sec}")
+            }
+        }
+        Some("types") => match path.get(2) {
+            Some(k) => format!("types.{k}"),
+            None => "types".into(),
+        },
+        Some("modules") => match path.get(1) {
+            Some(k) => format!("modules.{k}"),
+            None => "modules".into(),
+        },
+        Some(s) => s.to_string(),
+        None => "root".into(),
+    }
+}
+
+fn short(v: &Value) -> String {
+    let s = v.to_string();
+    crate::report::clip(&s, 300)
+}
+
+fn diff_rec(a: &Value, b: &Value, path: &mut Vec<String>, out: &mut Vec<Diff>) {
+    if out.len() >= 200 || a == b {
+        return;
+    }
+    match (a, b) {
+        (Value::Object(x), Value::Object(y)) => {
+            let keys: BTreeSet<&String> = x.keys().chain(y.keys()).collect();
+            for k in keys {
+                path.push(k.clone());
+                match (x.get(k), y.get(k)) {
+                    (Some(p), Some(q)) => diff_rec(p, q, path, out),
+                    (p, q) => out.push(Diff { section: section_of(path), comps: path.clone(), path: path.join("/"), left: p.map(short).unwrap_or("<absent>".into()), right: q.map(short).unwrap_or("<absent>".into()) }),
+                }
+                path.pop();
+            }
+        }
+        (Value::Array(x), Value::Array(y)) => {
+            let is_token_list = path.last().map(|s| s == "tokens").unwrap_or(false);
+            if is_token_list && x.len() == y.len() {
+                for i in 0..x.len() {
+                    path.push(i.to_string());
+                    diff_rec(&x[i], &y[i], path, out);
+                    path.pop();
+                }
+            } else if x.iter().all(|v| v.is_string()) && y.iter().all(|v| v.is_string()) && !is_token_list {
+                // sorted string sets: report the symmetric difference
+                let sx: BTreeSet<&str> = x.iter().filter_map(|v| v.as_str()).collect();
+                let sy: BTreeSet<&str> = y.iter().filter_map(|v| v.as_str()).collect();
+                let only_x: Vec<&&str> = sx.difference(&sy).collect();
+                let only_y: Vec<&&str> = sy.difference(&sx).collect();
+                out.push(Diff {
+                    section: section_of(path),
+                    comps: path.clone(),
+                    path: path.join("/"),
+                    left: crate::report::clip(&format!("{only_x:?}"), 400),
+                    right: crate::report::clip(&format!("{only_y:?}"), 400),
+                });
+            } else if x.len() == y.len() {
+                for i in 0..x.len() {
+                    path.push(i.to_string());
+                    diff_rec(&x[i], &y[i], path, out);
+                    path.pop();
+                }
+            } else {
+                out.push(Diff { section: section_of(path), comps: path.clone(), path: path.join("/"), left: format!("{} items", x.len()), right: format!("{} items", y.len()) });
+            }
+        }
+        _ => out.push(Diff { section: section_of(path), comps: path.clone(), path: path.join("/"), left: short(a), right: short(b) }),
+    }
+}
+
+/// Sorted, de-duplicated sections of a diff (for signatures).
+pub fn diff_sections(d: &[Diff]) -> Vec<String> {
+    let mut s: Vec<String> = d.iter().map(|x| x.section.clone()).collect();
+    s.sort();
+    s.dedup();
+    s
+}
+
+pub fn diff_text(d: &[Diff], max: usize) -> String {
+    let mut s = String::new();
+    for x in d.iter().take(max) {
+        s.push_str(&format!("[{}] {}: {}  =>  {}\n", x.section, x.path, x.left, x.right));
+    }
+    if d.len() > max {
+        s.push_str(&format!("… {} more\n", d.len() - max));
+    }
+    s
+}
+
+/// Every string leaf of a dump together with its section (C10 scans them for removed paths).
+pub fn walk_strings(v: &Value, f: &mut dyn FnMut(&[String], &str)) {
+    fn rec(v: &Value, path: &mut Vec<String>, f: &mut dyn FnMut(&[String], &str)) {
+        match v {
+            Value::String(s) => f(path, s),
+            Value::Array(a) => {
+                for (i, x) in a.iter().enumerate() {
+                    path.push(i.to_string());
+                    rec(x, path, f);
+                    path.pop();
+                }
+            }
+            Value::Object(o) => {
+                for (k, x) in o {
+                    path.push(k.clone());
+                    f(path, k);
+                    rec(x, path, f);
+                    path.pop();
+                }
+            }
+            _ => {}
+        }
+    }
+    rec(v, &mut Vec::new(), f);
+}
+
+pub fn section_of_path(path: &[String]) -> String {
+    section_of(path)
+}
+
+/// Canonical JSON text with object keys sorted (independent of serde_json's `preserve_order`).
+pub fn canon_string(v: &Value) -> String {
+    fn rec(v: &Value, out: &mut String) {
+        match v {
+            Value::Object(o) => {
+                let mut keys: Vec<&String> = o.keys().collect();
+                keys.sort();
+                out.push('{');
+                for (i, k) in keys.iter().enumerate() {
+                    if i > 0 {
+                        out.push(',');
+                    }
+                    out.push_str(&Value::String((*k).clone()).to_string());
+                    out.push(':');
+                    rec(&o[*k], out);
+                }
+                out.push('}');
+            }
+            Value::Array(a) => {
+                out.push('[');
+                for (i, x) in a.iter().enumerate() {
+                    if i > 0 {
+                        out.push(',');
+                    }
+                    rec(x, out);
+                }
+                out.push(']');
+            }
+            other => out.push_str(&other.to_string()),
+        }
+    }
+    let mut s = String::new();
+    rec(v, &mut s);
+    s
+}
+
+
+/// Structural discriminator of one diff entry for signatures: what kind of thing differs,
+/// never its name. `a`/`b` are the two dumps the diff was taken from.
+pub fn discriminator(a: &Value, b: &Value, d: &Diff, files_declaring: &dyn Fn(&str) -> usize) -> String {
+    fn files_of(locs: Option<&Value>) -> usize {
+        let mut s = BTreeSet::new();
+        if let Some(l) = locs.and_then(|l| l.as_array()) {
+            for x in l {
+                if let Some(t) = x.as_str() {
+                    s.insert(t.split('@').next().unwrap_or("").to_string());
+                }
+            }
+        }
+        s.len()
+    }
+    let n_files = |n: usize| match n {
+        0 => "0",
+        1 => "1",
+        _ => "n",
+    };
+    let c = &d.comps;
+    match c.first().map(|s| s.as_str()) {
+        Some("types") => {
+            let name = c.get(1).cloned().unwrap_or_default();
+            let ea = a.get("types").and_then(|t| t.get(&name));
+            let eb = b.get("types").and_then(|t| t.get(&name));
+            let e = ea.or(eb);
+            let kind = e.and_then(|e| e.get("kind")).and_then(|k| k.as_str()).unwrap_or("?");
+            // number of files of the case that declare the type (in any text of the history);
+            // falls back to the locations recorded in the dumps
+            let by_text = files_declaring(name.split('#').next().unwrap_or(&name));
+            let n = by_text.max(files_of(ea.and_then(|e| e.get("locations")))).max(files_of(eb.and_then(|e| e.get("locations"))));
+            format!("owner={kind}-declared-in-{}-files", n_files(n))
+        }
+        Some("globals") => {
+            let name = c.get(1).cloned().unwrap_or_default();
+            let n = files_of(a.get("globals").and_then(|t| t.get(&name))).max(files_of(b.get("globals").and_then(|t| t.get(&name))));
+            format!("global-declared-in-{}-files", n_files(n))
+        }
+        Some("files") => {
+            let sec = c.get(2).map(|s| s.as_str()).unwrap_or("");
+            match sec {
+                "tokens" => {
+                    // what the token resolves to in either dump
+                    let tok = |v: &Value| -> Option<String> {
+                        let t = v.get("files")?.get(c.get(1)?)?.get("tokens")?.get(c.get(3)?.parse::<usize>().ok()?)?;
+                        let decl = t.get(3).and_then(|x| x.as_str()).unwrap_or("none");
+                        let kind = decl.split(':').next().unwrap_or("none").to_string();
+                        Some(kind)
+                    };
+                    let mut kinds: BTreeSet<String> = BTreeSet::new();
+                    kinds.insert(tok(a).unwrap_or("?".into()));
+                    kinds.insert(tok(b).unwrap_or("?".into()));
+                    format!("token={}", kinds.into_iter().collect::<Vec<_>>().join("|"))
+                }
+                "diag" => {
+                    // codes in the symmetric difference
+                    let mut codes = BTreeSet::new();
+                    for side in [&d.left, &d.right] {
+                        for part in side.split('"') {
+                            // entries look like `l:c-l:c code sev=…`
+                            let mut it = part.split(' ');
+                            if let (Some(r), Some(code)) = (it.next(), it.next()) {
+                                if r.contains(':') && r.contains('-') && code.chars().all(|ch| ch.is_ascii_lowercase() || ch == '-') && !code.is_empty() {
+                                    codes.insert(code.to_string());
+                                }
+                            }
+                        }
+                    }
+                    format!("code={}", codes.into_iter().collect::<Vec<_>>().join("+"))
+                }
+                "decls" => {
+                    let mut kinds = BTreeSet::new();
+                    for side in [&d.left, &d.right] {
+                        for k in ["global", "local", "param", "self"] {
+                            if side.contains(&format!(" {k} ")) {
+                                kinds.insert(k);
+                            }
+                        }
+                    }
+                    format!("decl={}", kinds.into_iter().collect::<Vec<_>>().join("+"))
+                }
+                _ => String::from("file"),
+            }
+        }
+        Some("modules") => {
+            if d.right.contains("null") || d.left.contains("null") { "resolves-vs-null".into() } else { "differs".into() }
+        }
+        _ => String::from("-"),
+    }
+}
+
+/// Field-level refinement of the census: line counts of the top-level fields of every index'
+/// pretty `Debug` rendering (`index.field`). Used for signatures and details only; verdicts
+/// use the hook census.
+pub fn census_fields(a: &EmmyLuaAnalysis) -> BTreeMap<String, usize> {
+    fn fields(name: &str, text: &str, out: &mut BTreeMap<String, usize>) {
+        let mut cur: Option<String> = None;
+        for line in text.lines() {
+            if line.starts_with("    ") && !line.starts_with("     ") {
+                let t = line.trim_start();
+                if let Some(i) = t.find(':') {
+                    let f = &t[..i];
+                    if !f.is_empty() && f.chars().all(|c| c.is_ascii_alphanumeric() || c == '_') {
+                        cur = Some(format!("{name}.{f}"));
+                    }
+                }
+            }
+            if let Some(c) = &cur {
+                *out.entry(c.clone()).or_insert(0) += 1;
+            }
+        }
+    }
+    let db = a.compilation.get_db();
+    let mut out = BTreeMap::new();
+    fields("decl", &format!("{:#?}", db.get_decl_index()), &mut out);
+    fields("references", &format!("{:#?}", db.get_reference_index()), &mut out);
+    fields("types", &format!("{:#?}", db.get_type_index()), &mut out);
+    fields("modules", &format!("{:#?}", db.get_module_index()), &mut out);
+    fields("members", &format!("{:#?}", db.get_member_index()), &mut out);
+    fields("property", &format!("{:#?}", db.get_property_index()), &mut out);
+    fields("signature", &format!("{:#?}", db.get_signature_index()), &mut out);
+    fields("diagnostic", &format!("{:#?}", db.get_diagnostic_index()), &mut out);
+    fields("operator", &format!("{:#?}", db.get_operator_index()), &mut out);
+    fields("flow", &format!("{:#?}", db.get_flow_index()), &mut out);
+    fields("file_dependencies", &format!("{:#?}", db.get_file_dependencies_index()), &mut out);
+    fields("metatable", &format!("{:#?}", db.get_metatable_index()), &mut out);
+    fields("global", &format!("{:#?}", db.get_global_index()), &mut out);
+    fields("json_schema", &format!("{:#?}", db.get_json_schema_index()), &mut out);
+    out
+}
